@@ -2,7 +2,7 @@
     (stability, injectivity, for every history of lookups), and the QID an entry
     has in Readdir is the QID Walk and GetAttr report (C19_qids, C20_mapper). *)
 From Coq Require Import NArith String List Bool Lia ZArith ZifyN ZifyBool ZifyNat.
-From P9V Require Import Base.Str gen.ConstGen Fsx.Readdir Fsx.ReaddirProofs Fsx.QidMap.
+From P9V Require Import Base.Str gen.ConstGen Fsx.Readdir Fsx.ReaddirProofs Fsx.Qid Fsx.QidMap.
 Import ListNotations.
 Open Scope list_scope.
 Open Scope N_scope.
@@ -89,7 +89,7 @@ Proof.
     { assert (X := qid_for_extends _ _ _ _ _ E). assert (Y := apply_chain_extends _ _ _ _ _ H1).
       (* s1 is between s and s: qid_for either leaves the state or adds an entry; if it had added one, apply_chain could not return s *)
       unfold qid_for in E. destruct (tlookup (m, q_path q) (m_tbl s)) eqn:L; inversion E; subst; [reflexivity|].
-      exfalso. specialize (Y (m, q_path q) (m_gen s (fst m) + 1)). cbn in Y. rewrite mkey_eqb_refl in Y.
+      exfalso. specialize (Y (m, q_path q) (inc64 (m_gen s (fst m)))). cbn in Y. rewrite mkey_eqb_refl in Y.
       specialize (Y eq_refl). congruence. }
     subst s1. eauto.
 Qed.
@@ -320,11 +320,27 @@ Definition minv (s : mstate) : Prop :=
 Lemma minv_init : minv m_init.
 Proof. split; cbn; intros; discriminate. Qed.
 
-Lemma qid_for_minv s m q r s' : minv s -> qid_for s m q = (r, s') -> minv s'.
+Lemma inc64_small' n : n + 1 < two64 -> inc64 n = n + 1.
+Proof. intros H. unfold inc64. now apply N.mod_small. Qed.
+Lemma inc64_le n : inc64 n <= n + 1.
+Proof. unfold inc64. apply N.mod_le. discriminate. Qed.
+
+(** [gbound B s]: no generator has been advanced more than B times *)
+Definition gbound (B : N) (s : mstate) : Prop := forall g, m_gen s g <= B.
+
+Lemma qid_for_gbound B s (m : mid) q r s' : gbound B s -> qid_for s m q = (r, s') -> gbound (B + 1) s'.
 Proof.
-  intros (Hr & Hi) H. unfold qid_for in H.
-  destruct (tlookup (m, q_path q) (m_tbl s)) eqn:E; inversion H; subst; [split; assumption|].
-  split; cbn.
+  intros Hb H g. unfold qid_for in H.
+  destruct (tlookup (m, q_path q) (m_tbl s)) eqn:E; rewrite ?E in H; inversion H; subst; cbn.
+  - specialize (Hb g). lia.
+  - destruct (Nat.eqb g (fst m)); [pose proof (inc64_le (m_gen s (fst m))); specialize (Hb (fst m)); lia|specialize (Hb g); lia].
+Qed.
+
+Lemma qid_for_minv s (m : mid) q r s' : minv s -> m_gen s (fst m) + 1 < two64 -> qid_for s m q = (r, s') -> minv s'.
+Proof.
+  intros (Hr & Hi) Hw H. unfold qid_for in H.
+  destruct (tlookup (m, q_path q) (m_tbl s)) eqn:E; rewrite ?E in H; inversion H; subst; [split; assumption|].
+  rewrite (inc64_small' _ Hw). split; cbn.
   - intros k p. destruct (mkey_eqb k (m, q_path q)) eqn:Ek.
     + apply mkey_eqb_eq in Ek. subst k. intros X; inversion X; subst. cbn. rewrite Nat.eqb_refl. lia.
     + intros Hk. specialize (Hr _ _ Hk). destruct (Nat.eqb_spec (fst (fst k)) (fst m)) as [Eg|]; [rewrite Eg in Hr|]; lia.
@@ -337,13 +353,6 @@ Proof.
     + apply Hi.
 Qed.
 
-Lemma apply_chain_minv c : forall s q r s', minv s -> apply_chain s c q = (r, s') -> minv s'.
-Proof.
-  induction c as [|m c IH]; intros s q r s' Hi H; cbn in H.
-  - inversion H; subst; exact Hi.
-  - destruct (qid_for s m q) as [q1 s1] eqn:E. eapply IH; [eapply qid_for_minv; eauto|eauto].
-Qed.
-
 (** any history of QIDFor calls on any Mappers *)
 Fixpoint run_history (s : mstate) (h : list (mid * qid)) : mstate :=
   match h with
@@ -351,31 +360,47 @@ Fixpoint run_history (s : mstate) (h : list (mid * qid)) : mstate :=
   | (m, q) :: r => run_history (snd (qid_for s m q)) r
   end.
 
-Lemma run_history_inv h : forall s, minv s -> minv (run_history s h) /\ extends s (run_history s h).
+(** tables only grow, however long the history *)
+Lemma run_history_extends h : forall s, extends s (run_history s h).
 Proof.
-  induction h as [|[m q] h IH]; intros s Hi; cbn.
-  - split; [exact Hi|apply extends_refl].
-  - destruct (qid_for s m q) as [r s1] eqn:E. cbn.
-    destruct (IH s1 (qid_for_minv _ _ _ _ _ Hi E)) as (H1 & H2).
-    split; [exact H1|]. eapply extends_trans; [eapply qid_for_extends; eauto|exact H2].
+  induction h as [|[m q] h IH]; intros s; cbn; [apply extends_refl|].
+  destruct (qid_for s m q) as [r s1] eqn:E. cbn.
+  eapply extends_trans; [eapply qid_for_extends; eauto|apply IH].
 Qed.
 
-(** C20_mapper, sequential form: after any history [h1], ask for [q]; after any
-    further history [h2] the answer is the same, and two Mappers on one generator
-    give equal paths only for the same Mapper and the same source path; no
-    allocated path is 0. *)
+(** the invariant, for histories that keep every generator below 2^64 *)
+Lemma run_history_inv h : forall B s, minv s -> gbound B s -> B + N.of_nat (length h) < two64 ->
+  minv (run_history s h) /\ gbound (B + N.of_nat (length h)) (run_history s h).
+Proof.
+  induction h as [|[m q] h IH]; intros B s Hi Hb Hw; cbn [run_history length] in *.
+  - rewrite N.add_0_r. auto.
+  - destruct (qid_for s m q) as [r s1] eqn:E. cbn [snd].
+    assert (I1 : minv s1) by (eapply qid_for_minv; [exact Hi| |exact E]; specialize (Hb (fst m)); lia).
+    assert (B1 := qid_for_gbound _ _ _ _ _ _ Hb E).
+    destruct (IH (B + 1) s1 I1 B1) as (A1 & A2); [lia|].
+    split; [exact A1|]. replace (B + N.of_nat (S (length h))) with (B + 1 + N.of_nat (length h)) by lia. exact A2.
+Qed.
+
+(** C20_mapper, sequential form, uint64 generators: after any history [h1], ask
+    for [q]; after any further history [h2] the answer is the same, and two
+    Mappers on one generator give equal paths only for the same Mapper and the
+    same source path; no allocated path is 0 — for fewer than 2^64 calls in all. *)
 Theorem mapper_stable_injective h1 h2 m q r s1 m' q' r' s2 :
+  N.of_nat (length h1 + length h2) + 2 < two64 ->
   qid_for (run_history m_init h1) m q = (r, s1) ->
   qid_for (run_history s1 h2) m' q' = (r', s2) ->
   (m' = m -> q_path q' = q_path q -> q_path r' = q_path r) /\
   (fst m' = fst m -> q_path r' = q_path r -> m' = m /\ q_path q' = q_path q) /\
   0 < q_path r /\ q_type r = q_type q /\ q_version r = q_version q.
 Proof.
-  intros H1 H2.
-  destruct (run_history_inv h1 m_init minv_init) as (I0 & _).
-  assert (I1 := qid_for_minv _ _ _ _ _ I0 H1).
-  destruct (run_history_inv h2 s1 I1) as (I2 & X12).
-  assert (I3 := qid_for_minv _ _ _ _ _ I2 H2).
+  intros Hw H1 H2. rewrite Nat2N.inj_add in Hw.
+  assert (G0 : gbound 0 m_init) by (intros g; cbn; lia).
+  destruct (run_history_inv h1 0 m_init minv_init G0) as (I0 & B0); [lia|].
+  assert (I1 : minv s1) by (eapply qid_for_minv; [exact I0| |exact H1]; specialize (B0 (fst m)); lia).
+  assert (B1 := qid_for_gbound _ _ _ _ _ _ B0 H1).
+  destruct (run_history_inv h2 _ s1 I1 B1) as (I2 & B2); [lia|].
+  assert (X12 := run_history_extends h2 s1).
+  assert (I3 : minv s2) by (eapply qid_for_minv; [exact I2| |exact H2]; specialize (B2 (fst m')); lia).
   assert (X23 := qid_for_extends _ _ _ _ _ H2).
   destruct (qid_for_settles _ _ _ _ _ H1) as (L1 & T1 & V1).
   destruct (qid_for_settles _ _ _ _ _ H2) as (L2 & T2 & V2).
